@@ -544,6 +544,8 @@ class Gen:
         tups = [(n, t) for (n, t) in env if isinstance(t, tuple) and t[0] == 'tup' and ty in t[1]]
         if tups:
             choices += ['item'] * 2
+        if depth < self.max_depth - 1:
+            choices += ['item-expr']
         if ty == 'int':
             choices += ['arith'] * 5 + ['neg', 'len']
         elif ty == 'bool':
@@ -575,6 +577,14 @@ class Gen:
             n, t = rng.choice(tups)
             idx = rng.choice([i for i, x in enumerate(t[1]) if x == ty])
             return ('item', ('v', n), idx)
+        if c == 'item-expr':
+            # member access on an arbitrary tuple-valued expression (a literal aggregate, a call, an if …)
+            k = rng.choice([1, 2, 3])
+            idx = rng.randrange(k)
+            tys = [ty if i == idx else self.rand_type(2, False) for i in range(k)]
+            tt = ('tup', tys)
+            te = ('tup', [self.expr(t, env, d) for t in tys]) if rng.random() < 0.7 else self.expr(tt, env, d)
+            return ('item', te, idx)
         if c == 'arith':
             op = rng.choice(['add', 'sub', 'mul', 'mod', 'add', 'sub'])
             return ('c', op, [self.expr('int', env, d), self.expr('int', env, d)])
